@@ -1010,7 +1010,8 @@ struct Driver {
     classes: BTreeMap<String, u64>,
     /// historical request -> coordinate-bound reading first seen
     memo: BTreeMap<ObsReq, (Value, u64)>,
-    omemo: BTreeMap<OptReq, (Value, u64)>,
+    /// (historical optic request, checkpoints strictly below its tick) -> full optic reading first seen
+    omemo: BTreeMap<(OptReq, Vec<u64>), (Value, u64)>,
     replay_cache: BTreeMap<(String, u64), Option<Replayed>>,
     last_fp: Option<Fp>,
     prefix: Vec<Value>,
@@ -1269,22 +1270,46 @@ impl Driver {
         }
         if o.at != "frontier" && known && o.focus == "wl" && o.ck == "wl" {
             self.hist_reads += 1;
+            // The whole optic reading at an explicit coordinate t - payload, envelope, witness basis and read
+            // identity - is bound to (history up to t, checkpoints strictly below t).  Later commits, passes,
+            // forks and checkpoints taken at or above t must not change it; only a checkpoint below t
+            // legitimately offers another basis (or LiveTailRequiresReduction), hence it is part of the key.
+            let mut low: Vec<u64> = self.world.ckpts.get(&o.w).map(|v| v.iter().copied().filter(|c| *c < o.t).collect()).unwrap_or_default();
+            low.sort_unstable();
             let mut cb = coord_bound(&res);
             cb["kind"] = res["kind"].clone();
-            // the witness basis legitimately changes when a checkpoint is added: it is not part of the
-            // coordinate-bound reading; an added checkpoint may also turn a reading into LiveTailRequiresReduction
-            let settled = res["ok"] == json!(true);
-            match self.omemo.get(o) {
+            let mut full = cb.clone();
+            full["basis"] = res["basis"].clone();
+            full["rid"] = res["rid"].clone();
+            full["reason"] = res["reason"].clone();
+            let settled = res["ok"] == json!(true) || res["kind"] == json!("LiveTailRequiresReduction");
+            let n = self.world.len(&o.w);
+            let above = self.world.ckpts.get(&o.w).is_some_and(|v| v.iter().any(|c| *c >= o.t && *c < n));
+            if res["ok"] == json!(true) && !low.is_empty() && above {
+                // a checkpoint below AND one at/above the coordinate (below the current length)
+                self.class_hit(format!("optic_ckpt_around:{}", res["basis"]["k"].as_str().unwrap_or("")));
+            }
+            let key = (o.clone(), low);
+            match self.omemo.get(&key) {
                 Some((old, at_event)) => {
                     self.reasked += 1;
-                    let live_tail = res["kind"] == json!("LiveTailRequiresReduction");
-                    if *old != cb && !live_tail {
-                        let at_event = *at_event;
-                        self.violation(format!("historical_reading_changed:optic:{}", o.shape), format!("first asked at event {at_event}: {old} ; now: {cb}"), o.json());
+                    let at_event = *at_event;
+                    let mut old_cb = old.clone();
+                    for k in ["basis", "rid", "reason"] {
+                        if let Some(m) = old_cb.as_object_mut() {
+                            m.remove(k);
+                        }
+                    }
+                    if old_cb != cb {
+                        self.violation(format!("historical_reading_changed:optic:{}", o.shape), format!("first asked at event {at_event}: {old} ; now: {full}"), o.json());
+                    } else if *old != full {
+                        self.violation(format!("historical_optic_witness_basis_changed:{}", o.shape),
+                            format!("same request, same history up to the coordinate, same checkpoints below it; first asked at event {at_event}: basis {} rid {} ; now: basis {} rid {}",
+                                old["basis"], old["rid"], full["basis"], full["rid"]), o.json());
                     }
                 }
                 None if settled => {
-                    self.omemo.insert(o.clone(), (cb, self.events));
+                    self.omemo.insert(key, (full, self.events));
                 }
                 None => {}
             }
@@ -1402,11 +1427,63 @@ impl Driver {
             let q = if !oks.is_empty() && rng.gen_bool(0.75) { oks[rng.gen_range(0..oks.len())].clone() } else { keys[rng.gen_range(0..keys.len())].clone() };
             self.observe(&q);
         }
-        let okeys: Vec<OptReq> = self.omemo.keys().cloned().collect();
+        let okeys: Vec<OptReq> = self.omemo.keys().map(|(o, _)| o.clone()).collect();
         for _ in 0..(n / 3).min(okeys.len()) {
             let o = okeys[rng.gen_range(0..okeys.len())].clone();
             self.optic(&o);
         }
+    }
+
+    fn apply(&mut self, evs: Vec<Value>) {
+        for ev in evs {
+            self.emit(ev);
+        }
+        self.mutated();
+    }
+
+    fn hist_optics(&mut self, w: &str) {
+        let n = self.world.len(w);
+        for t in 0..=n {
+            for shape in ["head", "snapmeta"] {
+                for maxt in [-1i64, 1, 8] {
+                    self.optic(&OptReq { at: "tick", t, shape, maxt, ..OptReq::base(w) });
+                }
+            }
+            if let Some(c) = self.entry_commit(w, t) {
+                self.optic(&OptReq { at: "prov", t, pw: w.to_string(), pc: c, ..OptReq::base(w) });
+            }
+        }
+    }
+
+    /// Checkpoints AROUND re-asked historical optic reads: a checkpoint below the coordinates, reads at every
+    /// explicit tick, further commits, a second checkpoint ABOVE most coordinates (and below the new length),
+    /// a further commit, then the very same reads again.
+    fn ckpt_scenario(&mut self, rng: &mut StdRng) -> Result<(), String> {
+        let cands: Vec<String> = self.world.names.clone();
+        let w = cands[rng.gen_range(0..cands.len())].clone();
+        while self.world.len(&w) < 4 {
+            self.world.ingest(&w, rng.gen_range(1..5))?;
+            let evs = self.world.pass()?;
+            self.apply(evs);
+        }
+        let c1 = rng.gen_range(1..3);
+        let ev = self.world.checkpoint(&w, c1)?;
+        self.apply(vec![ev]);
+        self.hist_optics(&w);
+        for _ in 0..2 {
+            self.world.ingest(&w, rng.gen_range(1..5))?;
+            let evs = self.world.pass()?;
+            self.apply(evs);
+        }
+        let n = self.world.len(&w);
+        let c2 = rng.gen_range(3..n);
+        let ev = self.world.checkpoint(&w, c2)?;
+        self.apply(vec![ev]);
+        self.world.ingest(&w, rng.gen_range(1..5))?;
+        let evs = self.world.pass()?;
+        self.apply(evs);
+        self.hist_optics(&w);
+        Ok(())
     }
 
     fn run_one(&mut self, rng: &mut StdRng, run: u64, steps: usize, reads_per_step: usize, sweep_every: usize, var_coords: usize) -> Result<(), String> {
@@ -1428,14 +1505,20 @@ impl Driver {
         self.sweep(rng, var_coords);
         let mut next_w = 3;
         for step in 1..=steps {
-            let roll = rng.gen_range(0..100);
+            let mut roll = rng.gen_range(0..100);
+            // every run has at least one fork (by mid-run) and a parent/child pass after it
+            if step == steps / 2 && self.world.strands.is_empty() {
+                roll = 60;
+            } else if step == steps / 2 + 1 {
+                roll = 0;
+            }
             let names = self.world.names.clone();
             let mut evs: Vec<Value> = Vec::new();
             if roll < 55 {
                 // a scheduler pass with 0..3 intents (0 = idle pass: only the global tick moves)
-                let k = rng.gen_range(0..4);
-                for _ in 0..k {
-                    let w = names[rng.gen_range(0..names.len())].clone();
+                let k = if step == steps / 2 + 1 { names.len() } else { rng.gen_range(0..4) };
+                for i in 0..k {
+                    let w = if step == steps / 2 + 1 { names[i].clone() } else { names[rng.gen_range(0..names.len())].clone() };
                     // labels 1..4: base worldlines prefer {1,2}, fork children {3,4}; a label used on both sides of a
                     // fork makes the strand-owned footprint overlap the parent's writes (RevalidationRequired),
                     // otherwise the parent advanced disjointly
@@ -1480,6 +1563,7 @@ impl Driver {
                 self.sweep(rng, var_coords);
             }
         }
+        self.ckpt_scenario(rng)?;
         self.sweep(rng, var_coords);
         self.reask(rng, reads_per_step * 4);
         Ok(())
